@@ -119,7 +119,8 @@ class Compare(Case):
     def call(self, mod, e):
         if e.mode == "sym":
             def select(loc):
-                return {k: v for k, v in loc.items() if isinstance(v, MArr) and v.kind == "f" and not v._data.is_input}
+                # the accumulator: the one masked array of the frame that is not an input vector (any dtype)
+                return {k: v for k, v in loc.items() if isinstance(v, MArr) and not v._data.is_input}
 
             cut = LoopCut("vectors", select, None, length_of=lambda st: list(st.values())[0].n)
             cut.inv = lambda st, j, i: self.inv(e, cut, st, j, i)
